@@ -7,6 +7,7 @@ cp /repo/Cargo.lock Cargo.lock
 mkdir -p ../.build ../evidence ../replays
 CARGO_TARGET_DIR=../.build/native cargo build --profile verif --bin vcheck
 CARGO_TARGET_DIR=../.build/native cargo build --release --bin vcheck
+CARGO_TARGET_DIR=../.build/native cargo build --profile verif --features compat --bin vcheck-compat
 CARGO_TARGET_DIR=../.build/asan RUSTFLAGS="-Zsanitizer=address -Cforce-frame-pointers=yes" \
   cargo +nightly build --target x86_64-unknown-linux-gnu --bin vcheck
 CARGO_TARGET_DIR=../.build/miri MIRIFLAGS="-Zmiri-disable-isolation" \
